@@ -1715,11 +1715,19 @@ def check_C01(in_view, out_view, cfg_terms=None):
             diffs = jsorder.compare(a, b)
         except jsorder.Unsupported as e:
             raise ShapeError('jsorder: %s' % e)
+        # classification looks through wrappers that merely consume the value (typeof x, -x, (x), await x)
+        core = a
+        while isinstance(core, dict) and not is_lazy(core) and kind(core) in ('Unary', 'Paren', 'Await'):
+            nxt = payload(core)['arg'] if kind(core) in ('Unary', 'Await') else payload(core)['expr']
+            if is_lazy(nxt):
+                break
+            core = nxt
         for role, cond, detail in diffs:
             ctxkind = kind(a)
             r = 'behaviour/%s:%s' % (role, ctxkind)
+            ctxkind = kind(core)
             if ctxkind in ('Tpl', 'Call') and cfg_terms is not None:
-                hs = has_plain_sum_operand(a)
+                hs = has_plain_sum_operand(core)
                 if hs is not False:
                     # with the plus operator disabled a `+` operand is neither instrumented nor hoisted into a temporary, while
                     # the operands after it are: they are then evaluated before it (same test-pinned behaviour as C03's
@@ -1734,17 +1742,17 @@ def check_C01(in_view, out_view, cfg_terms=None):
                     cond = conj([cond, neg(conj([hs, plus_off]))])
                     if cond is False:
                         continue
-            if ctxkind == 'OptChain' and nested_chain_off_spine(a):
+            if ctxkind == 'OptChain' and nested_chain_off_spine(core):
                 # the optional-chain lowering also lowers chains nested in arguments / computed keys of the instrumented chain,
                 # hoists them to the front and guards the WHOLE expression with the nested chain's null test
                 r = 'behaviour/optional-chain-nested-in-argument-or-key-of-instrumented-chain'
-            if ctxkind == 'Call' and reflective_on_plain_path(payload(a)):
+            if ctxkind == 'Call' and reflective_on_plain_path(payload(core)):
                 # `p.q.m.call(thisArg, ..)` (not a `.prototype.` path): the path is read after the this-argument / arguments
                 r = 'behaviour/call-apply-target-path-read-after-arguments'
-            if ctxkind == 'Assign' and effectful_member_target(payload(a)) and leaf_eq(payload(a)['op']['_d'], ADD_ASSIGN) is not False:
+            if ctxkind == 'Assign' and effectful_member_target(payload(core)) and leaf_eq(payload(core)['op']['_d'], ADD_ASSIGN) is not False:
                 # `o().p += s` / `a[i++] += s`: the lowering `T = hook(T + s, ..)` clones the target expression
                 r = 'behaviour/add-assign-target-evaluated-twice'
-                cond = conj([cond, leaf_eq(payload(a)['op']['_d'], ADD_ASSIGN)])
+                cond = conj([cond, leaf_eq(payload(core)['op']['_d'], ADD_ASSIGN)])
             if (r, str(cond)) in seen:
                 continue
             seen.add((r, str(cond)))
